@@ -29,10 +29,10 @@ using namespace votca;
 using namespace votca::xtp;
 
 // ------------------------------------------------------------------ values
-enum Kind { IDX, INT, UINT, DBL, FLT, BOOL, STR, VIDX, VINT, VDBL, VSTR, MXD, MXF, VXD, RVXD, V3D, VV3D, TBL, ESYS, NKIND };
+enum Kind { IDX, INT, UINT, DBL, FLT, BOOL, STR, VIDX, VINT, VDBL, VSTR, MXD, MXF, VXD, RVXD, V3D, VV3D, TBL, ESYS, MXI, NKIND };
 static const char *kindname[NKIND] = {"index", "int", "unsigned", "double", "float", "bool", "string", "vector-index", "vector-int",
                                       "vector-double", "vector-string", "matrix", "matrixf", "vectorxd", "rowvector", "vector3d",
-                                      "vec3list", "table", "eigensystem"};
+                                      "vec3list", "table", "eigensystem", "matrixi"};
 struct Row { long id; std::string el; double pos[3]; long rank; double q[9]; };
 struct Val {
   std::string label;
@@ -47,6 +47,11 @@ struct Val {
   std::vector<Row> rows;
   bool compact = false;  // TBL: openTable(name, nRows, compact=true)
   int tblmode = 0;       // TBL: 0 = table.write(vector) as xtp does, 1 = writeToRow() row by row, 2 = two chunks write(buf,0,k), write(buf+k,k,n)
+  Eigen::Matrix<long, Eigen::Dynamic, Eigen::Dynamic> mi;  // MXI payload (Index matrix)
+  // Eigen expression values (family "expr"): written as expression #expr of a parent with storage order `order` and scalar `scalar`;
+  // m / mf / mi hold the expression evaluated into a plain column-major matrix (the reference)
+  int expr = -1, order = 0; char scalar = 'd';
+  std::string exprclass;   // rowmajor|colmajor - contiguous|outer-strided|inner-strided, from the expression's own traits and strides
   Eigen::MatrixXd m2, m3;  // ESYS: eigenvalues in m, eigenvectors in m2, eigenvectors2 in m3; info in n
 };
 
@@ -103,6 +108,7 @@ static std::string canon(const Val &v) {
     case VSTR: return canon_vs(v.vs);
     case MXD: case VXD: case RVXD: case V3D: return canon_mat(v.m);
     case MXF: return canon_mat(v.mf);
+    case MXI: return canon_mat(v.mi);
     case VV3D: return canon_vv(v.vv);
     case TBL: return canon_rows(v.rows);
     case ESYS: return canon_mat(v.m) + "|" + canon_mat(v.m2) + "|" + canon_mat(v.m3) + "|" + std::to_string(v.n);
@@ -115,7 +121,7 @@ enum Fam { SCALAR, ARRAY, VEC3LIST };
 static Fam fam(Kind k) { return k <= STR ? SCALAR : (k == VV3D ? VEC3LIST : ARRAY); }
 static std::string elemtype(const Val &v) {
   switch (v.kind) {
-    case IDX: case BOOL: case VIDX: return "long";
+    case IDX: case BOOL: case VIDX: case MXI: return "long";
     case INT: case VINT: return "int";
     case UINT: return "uint";
     case DBL: case VDBL: case MXD: case VXD: case RVXD: case V3D: return "double";
@@ -135,6 +141,7 @@ static std::string dims(const Val &v) {
     case VSTR: return std::to_string(v.vs.size());
     case MXD: case VXD: case RVXD: case V3D: return std::to_string(v.m.rows()) + "x" + std::to_string(v.m.cols());
     case MXF: return std::to_string(v.mf.rows()) + "x" + std::to_string(v.mf.cols());
+    case MXI: return std::to_string(v.mi.rows()) + "x" + std::to_string(v.mi.cols());
     case VV3D: return std::to_string(v.vv.size());
     case TBL: return std::to_string(v.rows.size()) + "x1";
     case ESYS: return std::to_string(v.m.rows()) + "+" + std::to_string(v.m2.rows()) + "x" + std::to_string(v.m2.cols()) + "+" + std::to_string(v.m3.rows()) + "x" + std::to_string(v.m3.cols());
@@ -146,8 +153,9 @@ static std::string sig(const Val &v) { return elemtype(v) + "/" + dims(v); }
 // names (ind9|ind10, ind99|ind100) and of "a few" vs "many" elements
 static std::string sizeclass(long n) { return n == 0 ? "empty" : (n <= 10 ? "regular" : (n <= 100 ? "n11-100" : "n101+")); }
 static std::string shapeclass(const Val &v) {
-  if (v.kind == MXD || v.kind == MXF) {
-    long r = v.kind == MXD ? v.m.rows() : v.mf.rows(), c = v.kind == MXD ? v.m.cols() : v.mf.cols();
+  if (v.expr >= 0) return "expr-" + v.exprclass;
+  if (v.kind == MXD || v.kind == MXF || v.kind == MXI) {
+    long r = v.kind == MXD ? v.m.rows() : (v.kind == MXF ? v.mf.rows() : v.mi.rows()), c = v.kind == MXD ? v.m.cols() : (v.kind == MXF ? v.mf.cols() : v.mi.cols());
     if (r == 0 && c == 0) return "0x0";
     if (c == 0) return "Nx0";
     if (r == 0) return "0xN";
@@ -240,6 +248,93 @@ static void build_alphabet() {
   { Val v; v.label = "t2b"; v.kind = TBL; v.rows = {mkrow(3, utf, 9.0), mkrow(4, "Og", 1e-300)}; add(v); }
 }
 
+// ---- Eigen expression shapes: everything the MatrixBase overloads of the writer accept.  Expression #code of a 5x6 parent P
+// (or an 8-vector V, or a strided Map over a 64-element buffer) with storage order Order and scalar S; every element distinct.
+static const char *EXPRNAME[] = {"plain", "row0", "row2", "col0", "col3", "blk-inner", "blk-topleft", "blk-bottomright", "leftCols", "rightCols", "topRows", "bottomRows",
+                                 "blk-1xN", "blk-Nx1",
+                                 "plain.T", "row0.T", "row2.T", "col0.T", "col3.T", "blk-inner.T", "blk-topleft.T", "blk-bottomright.T", "leftCols.T", "rightCols.T", "topRows.T",
+                                 "bottomRows.T", "blk-1xN.T", "blk-Nx1.T",
+                                 "map-outer", "map-inner-outer", "map-outer.T", "map-inner-outer.T", "vec", "vec-segment", "vec-segment.T"};
+static const int NEXPR = sizeof EXPRNAME / sizeof EXPRNAME[0];
+template <class S, int Order, class F> static void with_expr(int code, F &&f) {
+  using Mat = Eigen::Matrix<S, Eigen::Dynamic, Eigen::Dynamic, Order>;
+  using Vec = typename std::conditional<Order == Eigen::RowMajor, Eigen::Matrix<S, 1, Eigen::Dynamic>, Eigen::Matrix<S, Eigen::Dynamic, 1>>::type;
+  Mat P(5, 6);
+  for (int i = 0; i < 5; i++) for (int j = 0; j < 6; j++) P(i, j) = S(100 * (i + 1) + 10 * (j + 1));
+  Vec V(8);
+  for (int k = 0; k < 8; k++) V(k) = S(7000 + 11 * k);
+  std::vector<S> buf(64);
+  for (int k = 0; k < 64; k++) buf[k] = S(9000 + k);
+  Eigen::Map<Mat, 0, Eigen::OuterStride<>> MO(buf.data(), 3, 4, Eigen::OuterStride<>(7));
+  Eigen::Map<Mat, 0, Eigen::Stride<Eigen::Dynamic, Eigen::Dynamic>> MIO(buf.data(), 3, 4, Eigen::Stride<Eigen::Dynamic, Eigen::Dynamic>(9, 2));
+  switch (code) {
+    case 0: f(P); break;
+    case 1: f(P.row(0)); break;
+    case 2: f(P.row(2)); break;
+    case 3: f(P.col(0)); break;
+    case 4: f(P.col(3)); break;
+    case 5: f(P.block(1, 1, 3, 2)); break;
+    case 6: f(P.block(0, 0, 2, 3)); break;
+    case 7: f(P.block(3, 4, 2, 2)); break;
+    case 8: f(P.leftCols(2)); break;
+    case 9: f(P.rightCols(2)); break;
+    case 10: f(P.topRows(2)); break;
+    case 11: f(P.bottomRows(2)); break;
+    case 12: f(P.block(2, 1, 1, 4)); break;
+    case 13: f(P.block(1, 3, 3, 1)); break;
+    case 14: f(P.transpose()); break;
+    case 15: f(P.row(0).transpose()); break;
+    case 16: f(P.row(2).transpose()); break;
+    case 17: f(P.col(0).transpose()); break;
+    case 18: f(P.col(3).transpose()); break;
+    case 19: f(P.block(1, 1, 3, 2).transpose()); break;
+    case 20: f(P.block(0, 0, 2, 3).transpose()); break;
+    case 21: f(P.block(3, 4, 2, 2).transpose()); break;
+    case 22: f(P.leftCols(2).transpose()); break;
+    case 23: f(P.rightCols(2).transpose()); break;
+    case 24: f(P.topRows(2).transpose()); break;
+    case 25: f(P.bottomRows(2).transpose()); break;
+    case 26: f(P.block(2, 1, 1, 4).transpose()); break;
+    case 27: f(P.block(1, 3, 3, 1).transpose()); break;
+    case 28: f(MO); break;
+    case 29: f(MIO); break;
+    case 30: f(MO.transpose()); break;
+    case 31: f(MIO.transpose()); break;
+    case 32: f(V); break;
+    case 33: f(V.segment(2, 3)); break;
+    case 34: f(V.segment(2, 3).transpose()); break;
+    default: throw std::logic_error("expr code");
+  }
+}
+template <class F> static void with_expr_of(const Val &v, F &&f) {
+  bool rm = v.order == 1;
+  if (v.scalar == 'd') { if (rm) with_expr<double, Eigen::RowMajor>(v.expr, f); else with_expr<double, Eigen::ColMajor>(v.expr, f); }
+  else if (v.scalar == 'f') { if (rm) with_expr<float, Eigen::RowMajor>(v.expr, f); else with_expr<float, Eigen::ColMajor>(v.expr, f); }
+  else { if (rm) with_expr<long, Eigen::RowMajor>(v.expr, f); else with_expr<long, Eigen::ColMajor>(v.expr, f); }
+}
+static std::vector<int> EXPRVALS;  // alphabet indices of all expression values
+static void build_exprs() {
+  for (char sc : {'d', 'f', 'i'}) for (int order = 0; order < 2; order++) for (int code = 0; code < NEXPR; code++) {
+    Val v; v.expr = code; v.order = order; v.scalar = sc;
+    v.kind = sc == 'd' ? MXD : (sc == 'f' ? MXF : MXI);
+    v.label = std::string("x") + sc + (order ? "R" : "C") + "." + EXPRNAME[code];
+    with_expr_of(v, [&](const auto &e) {
+      using E = typename std::decay<decltype(e)>::type;
+      bool rm = E::IsRowMajor;
+      long inner = e.innerStride(), outer = e.outerStride();
+      long innerSize = rm ? e.cols() : e.rows(), outerSize = rm ? e.rows() : e.cols();
+      bool contiguous = inner == 1 && (outerSize <= 1 || outer == innerSize);
+      v.exprclass = std::string(rm ? "rowmajor" : "colmajor") + (inner != 1 ? "-inner-strided" : (contiguous ? "-contiguous" : "-outer-strided"));
+      // reference: the expression evaluated element by element into a plain column-major matrix
+      if (sc == 'd') { v.m.resize(e.rows(), e.cols()); for (long i = 0; i < e.rows(); i++) for (long j = 0; j < e.cols(); j++) v.m(i, j) = double(e(i, j)); }
+      else if (sc == 'f') { v.mf.resize(e.rows(), e.cols()); for (long i = 0; i < e.rows(); i++) for (long j = 0; j < e.cols(); j++) v.mf(i, j) = float(e(i, j)); }
+      else { v.mi.resize(e.rows(), e.cols()); for (long i = 0; i < e.rows(); i++) for (long j = 0; j < e.cols(); j++) v.mi(i, j) = long(e(i, j)); }
+    });
+    EXPRVALS.push_back((int)ALPHA.size());
+    add(v);
+  }
+}
+
 // ---- sized container values: every container kind the API stores, with element counts that cross
 // 0,1,2,9,10,11,12,99,100,101 (thorough also 250, 1001), every element distinct.  They are not part of the
 // general op alphabet (that would square the pair counts); the "sizes" phase enumerates them on their own.
@@ -301,6 +396,10 @@ static void build_sized() {
 
 // ------------------------------------------------------------------ typed write / read on the real code
 static void write_val(CheckpointWriter &w, const Val &v, const std::string &name) {
+  if (v.expr >= 0) {  // the expression itself goes to the writer (template overload for Eigen::MatrixBase<T>)
+    with_expr_of(v, [&](const auto &e) { w(e, name); });
+    return;
+  }
   switch (v.kind) {
     case IDX: { Index x = v.i; w(x, name); break; }
     case INT: w(v.n, name); break;
@@ -323,6 +422,7 @@ static void write_val(CheckpointWriter &w, const Val &v, const std::string &name
       }
       break;
     case MXF: w(v.mf, name); break;
+    case MXI: w(v.mi, name); break;
     case VXD: { Eigen::VectorXd x = v.m; w(x, name); break; }
     case RVXD: { Eigen::RowVectorXd x = v.m; w(x, name); break; }
     case V3D: { Eigen::Vector3d x = v.m; w(x, name); break; }
@@ -371,6 +471,7 @@ static std::string read_canon(CheckpointReader &r, Kind k, const std::string &na
     case VSTR: { std::vector<std::string> x; if (dirty) x = {"dirty", "target"}; r(x, name); return canon_vs(x); }
     case MXD: { Eigen::MatrixXd x; if (dirty) x = Eigen::MatrixXd::Constant(2, 2, 42.0); r(x, name); return canon_mat(x); }
     case MXF: { Eigen::MatrixXf x; if (dirty) x = Eigen::MatrixXf::Constant(2, 2, 42.0f); r(x, name); return canon_mat(x); }
+    case MXI: { Eigen::Matrix<long, Eigen::Dynamic, Eigen::Dynamic> x; if (dirty) x = Eigen::Matrix<long, Eigen::Dynamic, Eigen::Dynamic>::Constant(2, 2, 42); r(x, name); return canon_mat(x); }
     case VXD: { Eigen::VectorXd x; if (dirty) x = Eigen::VectorXd::Constant(2, 42.0); r(x, name); return canon_mat(x); }
     case RVXD: { Eigen::RowVectorXd x; if (dirty) x = Eigen::RowVectorXd::Constant(2, 42.0); r(x, name); return canon_mat(x); }
     case V3D: { Eigen::Vector3d x = dirty ? Eigen::Vector3d(41, 42, 43) : Eigen::Vector3d::Zero(); r(x, name); return canon_mat(x); }
@@ -453,6 +554,8 @@ static std::string slot_key0(const std::vector<int> &w) {
   // row-wise / chunk-wise table output: what matters is whether some row is addressed with startIdx > 0
   if (cur.kind == TBL && cur.tblmode && cur.rows.size() >= 2)
     return "table-write-startidx-gt0";  // CptTable::write(buffer, startIdx > 0, endIdx), directly or through writeToRow
+  // Eigen expression handed to the MatrixBase overload: the class is the expression's storage order and stride pattern
+  if (cur.expr >= 0) return "matrix-expr-" + cur.exprclass;
   if (cur.kind == ESYS) {
     if (w.size() == 1) return "fresh-eigensystem-" + shapeclass(cur);
     bool same = true;
@@ -460,7 +563,7 @@ static std::string slot_key0(const std::vector<int> &w) {
     return std::string(same ? "overwrite-same-shape-eigensystem" : "overwrite-eigensystem-different-size") + "-" + shapeclass(cur);
   }
   // many-element containers get their size class appended (member names ind10.., ind100..)
-  std::string sc = shapeclass(cur), big = (sc == "n11-100" || sc == "n101+") ? "-" + sc : "";
+  std::string sc = shapeclass(cur), big = (sc == "n11-100" || sc == "n101+" || cur.expr >= 0) ? "-" + sc : "";
   Fam f = fam(cur.kind);
   bool ns_cur = f != SCALAR;  // link namespace (datasets/groups) vs attribute namespace
   bool any = false, clash = false, etype = false, shape = false, longer_before = false;
@@ -1506,6 +1609,7 @@ static int main_proc(bsx::Args &a) {
 int main(int argc, char **argv) {
   build_alphabet();
   build_sized();
+  build_exprs();
   bsx::Args a = bsx::parse(argc, argv);
   g_step = (volatile int *)mmap(nullptr, 4096, PROT_READ | PROT_WRITE, MAP_SHARED | MAP_ANONYMOUS, -1, 0);
   if (g_step == MAP_FAILED) { perror("mmap"); return 2; }
@@ -1581,6 +1685,10 @@ int main(int argc, char **argv) {
            "CptTable<StaticSite> written whole / row by row with writeToRow / in two chunks / with compact=true) with N in {0,1,2,9,10,11,12,99,100,101" + std::string(thorough ? ",250,1001" : "") + "}, all elements distinct, on /:x and /a/b:x: "
            "single write (+ re-read into a pre-filled target; tables also re-read with readFromRow and chunked read), every size over every size with different content" +
            std::string(thorough ? ", the same with a MODIFY reopen in between" : "") +
+           ". Expression phase: everything the MatrixBase overloads accept: storage order {ColMajor,RowMajor} x scalar {double,float,Index} x " + std::to_string(NEXPR) +
+           " expression shapes of a 5x6 parent (plain, row(0), row(2), col(0), col(3), inner/edge blocks, left/right/top/bottom strips, 1xN and Nx1 blocks, the transpose of each, Maps with outer and "
+           "inner+outer stride and their transposes, a vector, a vector segment and its transpose), all elements distinct; written fresh, over a 12x2 matrix and over another expression of another shape" +
+           std::string(thorough ? ", with a MODIFY reopen in between, and re-read into a pre-filled target" : "") + "; reference = the expression evaluated element by element"
            ". Oracle: std::map model; after each history a fresh READ handle reads every slot: bit-identical payload+shape, "
            "error for never-written names (every kind at depth<=1, attribute/dataset/group kinds deeper), READ-handle writes rejected and file bytes unchanged. state = handle level + per-slot current "
            "value + set of storage signatures written since truncation; distinct_nontrivial = distinct states reached";
@@ -1725,6 +1833,27 @@ int main(int argc, char **argv) {
       }
     evaluate(sz, 7, nullptr);
     R.counters["sizes_histories"] = (long long)sz.size();
+  }
+
+  // ---- expression phase: Eigen expression shape x storage order x scalar through the MatrixBase overload (see build_exprs)
+  {
+    std::vector<Cand> ex;
+    auto push = [&](const Cand &c) { if (a.mine((long long)(bsx::fnv(candstr(c)) % 1000003ull))) ex.push_back(c); };
+    const int plainother = BYLABEL.at("mc#12");                                     // a 12x2 double matrix
+    std::vector<char> routes = {'r', 'c'};
+    if (thorough) routes.push_back('a');
+    for (char rt : routes)
+      for (int v : EXPRVALS) {
+        const Val &val = ALPHA[v];
+        // another expression value of the same scalar and order but of another shape
+        int otherexpr = BYLABEL.at(std::string("x") + val.scalar + (val.order ? "R" : "C") + "." + (dims(val) == "3x2" ? "plain" : "blk-inner"));
+        push({'C', {W(rt, 0, v)}, 0});
+        push({'C', {W(rt, 0, plainother), W(rt, 0, v)}, 0});
+        push({'C', {W(rt, 0, otherexpr), W(rt, 0, v)}, 0});
+        if (thorough) { push({'C', {W(rt, 0, plainother), O('M'), W(rt, 0, v)}, 0}); push({'C', {W(rt, 0, v)}, 1}); }
+      }
+    evaluate(ex, 8, nullptr);
+    R.counters["expr_histories"] = (long long)ex.size();
   }
 
   R.states = states; R.transitions = transitions; R.traces = transitions;
